@@ -374,6 +374,18 @@ func newTDManaged(env *vrt.Env, cfg TableCfg, m pt.Manager) (*TD, error) {
 	return td, err
 }
 
+// newTDManagedLazy creates the table through a Manager without looking the engine up (td.te stays nil
+// until the caller resolves it).
+func newTDManagedLazy(env *vrt.Env, cfg TableCfg, m pt.Manager) (*TD, error) {
+	td := &TD{env: env, cfg: cfg, be: newBackend(cfg.Deck), responded: map[string]bool{}, finished: map[string]bool{}}
+	opts := pt.NewTableEngineOptions()
+	opts.GameContinueInterval = cfg.Interval
+	setting := tableSetting(cfg)
+	td.firstSetup = func(gc int, parts map[string]int) { m.SetUpTableGame(setting.TableID, gc, parts) }
+	_, err := m.CreateTable(opts, td.callbacks(), setting)
+	return td, err
+}
+
 // memo caches a value computed once per table driver.
 func (td *TD) memo(key string, f func() string) string {
 	if td.memos == nil {
